@@ -924,6 +924,12 @@ func shapeWorld(seed int64, id int, shape string, width, depth int, rootOK bool)
 		with = cast.Ed(fmt.Sprintf("L%d", depth)).DID.String()
 		shape, rootOK = "layered", false
 	}
+	// chain-star: a chain of re-delegated blanket grants {can: "*", with: "ucan:*"} (the account-login shape);
+	// chain-linked: a chain whose proofs are cited by link and supplied by the proof resolver
+	star, linked := shape == "chain-star", shape == "chain-linked"
+	if star || linked {
+		shape = "chain"
+	}
 	w := &World{ID: id, Kind: shape, Cast: cast, Can: "store/add", Inv: "inv", Ctx: baseCtx(service)}
 	if shape == "attest-siblings" {
 		// one login by an account without a key, `width` attestations of it issued by OTHER key-less DIDs (each of which
@@ -999,10 +1005,16 @@ func shapeWorld(seed int64, id int, shape string, width, depth int, rootOK bool)
 			}
 			sp := &TokSpec{Name: fmt.Sprintf("t%d_%d", layer, j), Issuer: iss, Audience: cast.Ed(fmt.Sprintf("L%d", layer)), Exp: &far,
 				Nonce: fmt.Sprintf("%d.%d", layer, j), Caps: []CapSpec{{Can: "store/add", With: with, Nb: Cav{}}}}
+			if star {
+				sp.Caps = []CapSpec{{Can: "*", With: "ucan:*", Nb: Cav{}}}
+			}
 			switch shape {
 			case "layered", "chain":
 				for _, p := range prevLayer {
-					sp.Proofs = append(sp.Proofs, ProofRef{Tok: p, Inline: true})
+					sp.Proofs = append(sp.Proofs, ProofRef{Tok: p, Inline: !linked})
+					if linked {
+						w.Ctx.Resolvable[p] = true
+					}
 				}
 			case "tree":
 				for c := 0; c < width && layer > 1; c++ {
@@ -1017,7 +1029,10 @@ func shapeWorld(seed int64, id int, shape string, width, depth int, rootOK bool)
 	inv := &TokSpec{Name: "inv", Issuer: cast.Ed(fmt.Sprintf("L%d", depth)), Audience: service, Exp: &far,
 		Caps: []CapSpec{{Can: "store/add", With: with, Nb: Cav{}}}}
 	for _, p := range prevLayer {
-		inv.Proofs = append(inv.Proofs, ProofRef{Tok: p, Inline: true})
+		inv.Proofs = append(inv.Proofs, ProofRef{Tok: p, Inline: !linked})
+		if linked {
+			w.Ctx.Resolvable[p] = true
+		}
 	}
 	w.Specs = append(w.Specs, inv)
 	return w
@@ -1041,6 +1056,9 @@ func init() {
 		}
 		for d := 1; d <= 8; d++ {
 			shapes = append(shapes, sh{"chain", 1, d})
+		}
+		for d := 1; d <= 8; d++ {
+			shapes = append(shapes, sh{"chain-star", 1, d}, sh{"chain-linked", 1, d})
 		}
 		for _, wd := range []int{2, 3} {
 			for d := 1; d <= 4; d++ {
